@@ -1,8 +1,10 @@
 \* C17, quick tier: pairwise cover of (schema feature set x configuration) + seeded rows + short evolutions.
 \* Seed is overwritten by the harness (VERIF_SEED).  -workers 1 (EmitGen prints every Generate step).
 \* Constants: Extra = 6 seeded rows after the 14 pairwise rows, no cube, chains of MaxEvolve = 3 Generate steps
-\* from every 6th cover row.  Measured: 20 cover rows + 7 known-defect probe rows, 33 Generate steps,
-\* 66 distinct states, depth 6, ~2 s; -coverage 1: Init 27, Generate 33, Evolve 6 (no action at 0).
+\* from every 6th cover row, Repeat = 2 Generate steps (the second with unchanged input, action Again) in the
+\* directory of every other cover row with autobindModel.  Measured (seed 1): 20 cover rows + 8 known-defect probe
+\* rows, 42 Generate steps, 84 distinct states, depth 6, ~2 s; -coverage 1: Init 28, Generate 42, Evolve 6, Again 8
+\* (no action at 0).
 CONSTANTS
   Seed = 1
   Extra = 6
